@@ -434,8 +434,8 @@ impl Check for C05 {
     }
     fn count(&self, tier: Tier) -> u64 {
         match tier {
-            Tier::Quick => 200_000,
-            Tier::Thorough => 12_000_000,
+            Tier::Quick => 600_000,
+            Tier::Thorough => 30_000_000,
         }
     }
     fn generate(&self, rng: &mut Rng, index: u64, _tier: Tier) -> C05Sc {
